@@ -2,7 +2,10 @@ module verifharness
 
 go 1.25.0
 
-require github.com/hashicorp/serf v0.0.0
+require (
+	github.com/hashicorp/memberlist v0.5.4
+	github.com/hashicorp/serf v0.0.0
+)
 
 require (
 	github.com/armon/go-metrics v0.4.1 // indirect
@@ -14,7 +17,6 @@ require (
 	github.com/hashicorp/go-multierror v1.1.1 // indirect
 	github.com/hashicorp/go-sockaddr v1.0.7 // indirect
 	github.com/hashicorp/golang-lru v1.0.2 // indirect
-	github.com/hashicorp/memberlist v0.5.4 // indirect
 	github.com/miekg/dns v1.1.72 // indirect
 	github.com/sean-/seed v0.0.0-20170313163322-e2103e2c3529 // indirect
 	golang.org/x/net v0.56.0 // indirect
